@@ -24,16 +24,15 @@ Qed.
 Lemma field_wf_checks isReq f :
   field_wf isReq f ->
   lower_ok (fname f) = true /\ value_ok (fvalue f) = true /\
-  (is_pseudo (fname f) = true -> exists sl, fname f = slot_name sl /\ slot_is_response sl = negb isReq) /\
+  (is_pseudo (fname f) = true -> fvalue f <> [] /\ exists sl, fname f = slot_name sl /\ slot_is_response sl = negb isReq) /\
   (is_pseudo (fname f) = false -> validate_regular f = None).
 Proof.
   intros (Hu & Hv & Hp & Hr).
   assert (Hval : value_ok (fvalue f) = true) by (apply value_ok_spec; auto).
   destruct (is_pseudo (fname f)) eqn:E.
-  - apply is_pseudo_spec in E. apply Hp, allowed_slot in E as (sl & Hn & Hk).
-    repeat split; auto; try discriminate.
-    + rewrite Hn. apply slot_name_lower.
-    + intros _. eauto.
+  - apply is_pseudo_spec in E. apply Hp in E as [E Hne]. apply allowed_slot in E as (sl & Hn & Hk).
+    split; [rewrite Hn; apply slot_name_lower|]. split; auto. split; [|discriminate].
+    intros _. split; eauto.
   - apply is_pseudo_false_spec in E. destruct (Hr E) as (Ht & Hc & Hte).
     repeat split; auto; try discriminate.
     + apply token_lower; auto.
@@ -69,7 +68,7 @@ Proof.
               (forall g sl, In g r -> fname g = slot_name sl -> get_flag sl (pSeen st1) = false) /\
               (pReadCL st1 = true -> forall g, In g r -> is_cl g -> fvalue g = pCL st1)).
     { destruct (is_pseudo (fname f)) eqn:Ep.
-      - destruct (Hps eq_refl) as (sl & Hn & Hk).
+      - destruct (Hps eq_refl) as (Hvne & sl & Hn & Hk).
         assert (Hnr : pRegular st = false).
         { destruct (pRegular st) eqn:Er; auto. specialize (Hreg eq_refl). inversion Hreg; subst. congruence. }
         eexists. split; [eapply StepPseudo; eauto; apply (Hslots f sl); [left; auto|auto]|].
